@@ -32,6 +32,10 @@ def sweep_vector(obj, vec, **kwargs):
     if not 0 < obj.pdimension < 3:
         raise GeomdlException("Can only sweep curves and surfaces with curves and surface")
 
+    if len(vec) != obj.dimension:
+        raise GeomdlException("The input vector must have " + str(obj.dimension) + " components",
+                              data=dict(vector=vec, dimension=obj.dimension))
+
     # Translate control points
     swept_cps = [[] for _ in range(obj.ctrlpts_size)]
     for i, p in enumerate(obj.ctrlpts):
